@@ -41,7 +41,7 @@ Clause map — each phrase of the property text → theorems, with the status
    [P] every theorem is parametric in `valid : Nat → Bool`; `validAt` removes immediate tokens after skipped extras.
    [J] two-mode grammars: per lexing step the valid set is read from the REAL look-ahead iterator of the real parse state
        (parse log), and the real token is judged against `refToken` with that set; known finding: through merged lex states
-       a token that is not valid in the state can win (fixes/C14-merged-lex-state-continuation.diff is a proposed repair).
+       a token that is not valid in the state can win (a repair was prototyped, fixes/proposed/C14-merged-lex-state-continuation.diff; not integrated: it changes the tables of existing grammars).
 5. "extras are skipped between tokens"
    [P] `tokenize_spec` — the reference tokenization satisfies `Tokenized`: before every token exactly the maximal run of
        extras is skipped (the token starts at a non-extra character), the token is the chooser's answer at that position,
@@ -78,7 +78,7 @@ and `refToken` differ):
    judged; when a valid sentence is rejected because of it, it is a violation — two classes are known
    findings (through the overtake of DIFFERENCE 1, and `C14-merged-lex-state-continuation-leak`:
    `compute_conflict_status` does not see that a longer token of another state matches a continuation
-   of a completed token that is itself still alive; proposed repair in fixes/).
+   of a completed token that is itself still alive; a prototyped repair is in fixes/proposed/, not integrated).
 5. only error-free parses are compared token by token; when the reference finds no token at some
    position the real parser must report an error, and vice versa.
 -/
